@@ -1120,6 +1120,11 @@ fn case_strategy() -> BoxedStrategy<Case> {
 impl Property for C20 {
     type Case = Case;
 
+    fn fuzz(&self) -> Option<FuzzSpec> {
+        // entropy-driven target: libFuzzer's bytes replace the generator's random numbers
+        Some(FuzzSpec { target: "gen", jobs: 8, runs: 1_200_000, max_len: 512, seeds: 64 })
+    }
+
     fn id(&self) -> &'static str {
         "C20"
     }
